@@ -34,7 +34,7 @@ def o_roundtrip(ctx, case):
     ctx.begin("roundtrip", case)
     S = sc.lib_suite(suite)
     pk = S.SkToPk(sk)
-    ctx.check(type(pk) is bytes and len(pk) == 48, "roundtrip", "pk_shape", case, f"SkToPk returned {pk!r}")
+    ctx.check(isinstance(pk, bytes) and len(pk) == 48, "roundtrip", "pk_shape", case, f"SkToPk returned {pk!r}")
     try:
         pkpt = B.pubkey_point(pk)
     except B.Reject as r:
@@ -42,7 +42,7 @@ def o_roundtrip(ctx, case):
         pkpt = None
     ctx.check(pkpt == B.g1_mul(B.G1, sk), "roundtrip", "pk_value", case, "SkToPk(sk) does not decode to sk*G1")
     sig = S.Sign(sk, msg)
-    ctx.check(type(sig) is bytes and len(sig) == 96, "roundtrip", "sig_shape", case, f"Sign returned {sig!r}")
+    ctx.check(isinstance(sig, bytes) and len(sig) == 96, "roundtrip", "sig_shape", case, f"Sign returned {sig!r}")
     ok = S.Verify(pk, msg, sig)
     ctx.check(ok is True, "roundtrip", "honest_signature_rejected", case,
               f"{S.__name__}.Verify(SkToPk(sk), m, Sign(sk, m)) = {ok!r}")
@@ -65,7 +65,7 @@ def o_pop(ctx, case):
     S = sc.lib_suite("pop")
     pk = S.SkToPk(sk)
     proof = S.PopProve(sk)
-    ctx.check(type(proof) is bytes and len(proof) == 96, "pop", "proof_shape", case, f"PopProve returned {proof!r}")
+    ctx.check(isinstance(proof, bytes) and len(proof) == 96, "pop", "proof_shape", case, f"PopProve returned {proof!r}")
     ok = S.PopVerify(pk, proof)
     ctx.check(ok is True, "pop", "honest_proof_rejected", case, f"PopVerify(SkToPk(sk), PopProve(sk)) = {ok!r}")
     ctx.label("pop")
@@ -108,7 +108,7 @@ def o_keygen(ctx, case):
     ctx.begin("keygen", case)
     S = sc.lib_suite(suite)
     sk = S.KeyGen(ikm, info)
-    ctx.check(type(sk) is int and 1 <= sk < R, "keygen", "range", case, f"KeyGen returned {sk!r}, outside [1, r-1]")
+    ctx.check(isinstance(sk, int) and not isinstance(sk, bool) and 1 <= sk < R, "keygen", "range", case, f"KeyGen returned {sk!r}, outside [1, r-1]")
     pk = S.SkToPk(sk)
     sig = S.Sign(sk, ikm[:8])
     ctx.check(S.Verify(pk, ikm[:8], sig) is True, "keygen", "unusable", case, "a KeyGen key does not sign/verify")
